@@ -24,65 +24,65 @@ DIALECT_RULE = ("each evaluation is one simulated world: graph sessions building
                 "leafless orthogonal routing + planarisation), as the N-th graph of the process (id counters shifted by earlier sessions and by a generated offset), on a seeded heap whose placement policy decides the "
                 "order of the pointer-ordered sets, interleaved with other sessions; non-trivial = a reach probe fired; distinct = distinct event-log hash")
 PROPS = {
-    "C14": dict(build="plain", runs_quick=12000, budget_quick=50, runs_thorough=100000, budget_thorough=1200, rule=DIALECT_RULE, timeout_quick=60,
+    "C14": dict(build="plain", runs_quick=12000, budget_quick=150, runs_thorough=100000, budget_thorough=1200, rule=DIALECT_RULE, timeout_quick=60,
                 level_text="seeded search; most of this property's quantifier (all connected graphs, options) is workload sampling -- the simulation contributes the heap-order, id-offset and interleaving dimensions only (weak claim)",
                 assumptions=["connected graphs of 3-14 nodes (thorough: up to 40), trees / cycles / trees with extra edges / hubs", "route ends may lie up to nodePaddingScalar x IEL outside the node box (documented padding)",
                              "a std::runtime_error from doHOLA (no feasible expansion) is a refusal, counted but not judged"]),
-    "C19": dict(build="plain", runs_quick=20000, budget_quick=45, runs_thorough=400000, budget_thorough=900, rule=DIALECT_RULE,
+    "C19": dict(build="plain", runs_quick=20000, budget_quick=150, runs_thorough=400000, budget_thorough=900, rule=DIALECT_RULE,
                 level_text="seeded search; the decompositions are close to pure functions of the graph -- the simulation contributes heap order (planarise), id offsets and interleaving only (weak claim)",
                 assumptions=["simple graphs up to 30 nodes (thorough: 60); an empty core is allowed when the input is a tree", "planarise: cycle-plus-chords graphs on a jittered grid routed by LeaflessOrthoRouter"]),
-    "C12": dict(build="plain", runs_quick=20000, budget_quick=45, runs_thorough=300000, budget_thorough=900,
+    "C12": dict(build="plain", runs_quick=20000, budget_quick=150, runs_thorough=300000, budget_thorough=900,
                 rule="each evaluation is one simulated world: 1-2 hyperedge sessions (4-9 rectangles with centre and side pins, 1-2 hyperedges of 3..N terminals joined through 1-2 junctions at free points) "
                      "executing histories of transactions with shape moves, junction moves, full rerouting registered by junction or by terminal list, with improveHyperedgeRoutesMovingJunctions or "
                      "...AddingAndDeletingJunctions; the tree/terminal/attachment/route/reported-list oracles read the router's live objects after every transaction; heap placement decides the pointer-ordered "
                      "terminal and junction sets; non-trivial = a reach probe fired; distinct = distinct event-log hash",
                 assumptions=["route ends compared as an unordered pair; a junction the improver moved counts at recommendedPosition()",
                              "junctions in the reported deleted list are excluded until the following transaction (documented: freed at the router's convenience)"]),
-    "C10": dict(build="plain", runs_quick=90000, budget_quick=45, runs_thorough=400000, budget_thorough=900,
+    "C10": dict(build="plain", runs_quick=90000, budget_quick=150, runs_thorough=400000, budget_thorough=900,
                 rule=ROUTER_RULE + "; C10 scenes: grid of cells with one rectangle each (corridors 20-160 wide), 2-7 orthogonal connectors with free end points, nudging distance 2-10, all nudging option combinations, histories of moves and re-nudging",
                 assumptions=["overlap clause armed only if at least one of the two segments is interior and the free channel around its whole extent is >= (connectors+1) x nudging distance on both sides",
                              "two end segments on each other are not judged (both fixed); end-point clause only with nudgeOrthogonalSegmentsConnectedToShapes off",
                              "minimum-distance clause: pairs that shared a path in route() and are separated in displayRoute() are >= distance/10 apart"]),
-    "C11": dict(build="plain", runs_quick=30000, budget_quick=45, runs_thorough=400000, budget_thorough=900,
+    "C11": dict(build="plain", runs_quick=30000, budget_quick=150, runs_thorough=400000, budget_thorough=900,
                 rule=ROUTER_RULE + "; C11 scenes: rectangles carrying side pins (class 1, exclusive, directed), a shared centre pin (class 2) and a quarter/absolute-offset pin (class 3), connectors attached up to pin capacity, checkpoints, histories of moves and resizes",
                 assumptions=["pin positions recomputed by the harness from the documented offset rules on the model polygon", "connectors per (shape, exclusive class) never exceed the number of pins",
                              "insideOffset 0 on boundary pins is a separate swarm member with its own signature"]),
-    "C13": dict(build="plain", runs_quick=20000, budget_quick=45, runs_thorough=400000, budget_thorough=900, rule=TOPO_RULE,
+    "C13": dict(build="plain", runs_quick=20000, budget_quick=150, runs_thorough=400000, budget_thorough=900, rule=TOPO_RULE,
                 assumptions=["harness oracles: interior test with 1e-4 shrink, node overlap 1e-3, path ends, bends on corners turning towards their node; plus the library's own invariant checks as exceptions",
                              "runs whose initial libavoid routes already fail the invariant are not judged (counted)"]),
-    "C07": dict(build="plain", runs_quick=30000, budget_quick=40, runs_thorough=600000, budget_thorough=900, rule=LAYOUT_RULE,
+    "C07": dict(build="plain", runs_quick=30000, budget_quick=150, runs_thorough=600000, budget_thorough=900, rule=LAYOUT_RULE,
                 assumptions=["tolerance 1e-4 on every compound constraint; violated constraints must be in the reported unsatisfiable lists",
                              "relaxation: interrupted before the first completed iteration without makeFeasible -> only sizes/finiteness (nothing has been projected)"]),
-    "C08": dict(build="plain", runs_quick=30000, budget_quick=40, runs_thorough=600000, budget_thorough=900, rule=LAYOUT_RULE,
+    "C08": dict(build="plain", runs_quick=30000, budget_quick=150, runs_thorough=600000, budget_thorough=900, rule=LAYOUT_RULE,
                 assumptions=["armed after makeFeasible() followed by at least one completed iteration, nothing reported unsatisfiable",
                              "user constraints and clusters are generated from a non-overlapping witness grid"]),
     "C15": dict(build="san", also_build="plain", also_runs_quick=20000, also_budget_quick=15, also_runs_thorough=600000, also_budget_thorough=600, runs_quick=4000, budget_quick=25, shrink_budget=60, runs_thorough=150000, budget_thorough=1200, rule=MIX_RULE, timeout_quick=60,
                 assumptions=["ASan+UBSan (recoverable) on all five libraries and the harness, LeakSanitizer check at the end of every run, library assertions as exceptions, watchdog",
                              "allocation failure is not injected (the property is about valid use)",
                              "only direct leaks are classified; leaks in a run in which the library threw an assertion are attributed to that assertion"]),
-    "C20": dict(build="plain", runs_quick=6000, budget_quick=50, runs_thorough=200000, budget_thorough=1200, rule=MIX_RULE + "; every evaluation executes the subject session three times: alone (lifo heap, constant fill), in the busy world (random placement, junk fill), and in the busy world with another heap seed; every third evaluation is instead a frame-twin world: two editor sessions, the second executing the first one's plan translated by k/1024 or mirrored/quarter-turned, compared transaction by transaction",
+    "C20": dict(build="plain", runs_quick=6000, budget_quick=150, runs_thorough=200000, budget_thorough=1200, rule=MIX_RULE + "; every evaluation executes the subject session three times: alone (lifo heap, constant fill), in the busy world (random placement, junk fill), and in the busy world with another heap seed; every third evaluation is instead a frame-twin world: two editor sessions, the second executing the first one's plan translated by k/1024 or mirrored/quarter-turned, compared transaction by transaction",
                 assumptions=["routes and solver positions compared bit-exact, layout positions to 1e-9", "frame clauses (translation, symmetries, permutation) are input relations executed as twin sessions"]),
-    "C03": dict(build="plain", runs_quick=60000, budget_quick=40, runs_thorough=400000, budget_thorough=900, rule=ROUTER_RULE,
+    "C03": dict(build="plain", runs_quick=45000, budget_quick=150, runs_thorough=400000, budget_thorough=900, rule=ROUTER_RULE,
                 assumptions=["validity judged against the shapes themselves (not the buffered routing polygons), tolerance 1e-7 in clip parameter",
                              "interior clause only when a path exists among obstacles inflated by 1 unit",
                              "after a cancelled transaction oracles are suspended until the next completed transaction (recovery clause)"]),
-    "C04": dict(build="plain", runs_quick=60000, budget_quick=40, runs_thorough=300000, budget_thorough=900, rule=ROUTER_RULE,
+    "C04": dict(build="plain", runs_quick=60000, budget_quick=150, runs_thorough=300000, budget_thorough=900, rule=ROUTER_RULE,
                 assumptions=["separated (gap>=5) convex obstacles, free end points with all directions, angle/crossing penalties 0",
                              "penalty>0: violation only if costlier than the taut-path optimum; equal to taut but above the free optimum is known finding KF-C04-a"]),
-    "C05": dict(build="plain", runs_quick=60000, budget_quick=40, runs_thorough=300000, budget_thorough=900, rule=ROUTER_RULE,
+    "C05": dict(build="plain", runs_quick=60000, budget_quick=150, runs_thorough=300000, budget_thorough=900, rule=ROUTER_RULE,
                 assumptions=["cost oracle armed for free end points with all directions; rectangles; buffer distance modelled by growing the boxes",
                              "the bend-estimator sentence of the statement is a pure function and is not decided here"]),
-    "C06": dict(build="plain", runs_quick=40000, budget_quick=40, runs_thorough=250000, budget_thorough=900, rule=ROUTER_RULE,
+    "C06": dict(build="plain", runs_quick=36000, budget_quick=150, runs_thorough=250000, budget_thorough=900, rule=ROUTER_RULE,
                 assumptions=["cost equality armed with crossing/shared-path/cluster penalties 0 and free end points",
                              "fresh router: same code, same parameters, shapes created in id order"]),
-    "C09": dict(build="plain", runs_quick=40000, budget_quick=35, runs_thorough=2000000, budget_thorough=900, rule=OVERLAP_RULE,
+    "C09": dict(build="plain", runs_quick=40000, budget_quick=150, runs_thorough=2000000, budget_thorough=900, rule=OVERLAP_RULE,
                 assumptions=["fixed rectangles that overlap one another are dropped from the fixed set (unsatisfiable request)",
                              "constraint-set clause checked for generateYConstraints and generateXConstraints(useNeighbourLists=false) by projecting a random placement with the QP oracle"]),
-    "C01": dict(build="plain", runs_quick=60000, budget_quick=35, runs_thorough=3000000, budget_thorough=900, rule=VPSC_RULE,
+    "C01": dict(build="plain", runs_quick=60000, budget_quick=150, runs_thorough=3000000, budget_thorough=900, rule=VPSC_RULE,
                 assumptions=["oracle tolerance 1e-6 on scaled constraints as in the statement",
                              "flag-iff-infeasible clause only armed for inequality-only, scale-1 systems (as the statement restricts it)",
                              "problem instances are sampled; histories/heap/schedule are the explored dimensions"]),
-    "C02": dict(build="plain", runs_quick=60000, budget_quick=35, runs_thorough=3000000, budget_thorough=900, rule=VPSC_RULE,
+    "C02": dict(build="plain", runs_quick=55000, budget_quick=150, runs_thorough=3000000, budget_thorough=900, rule=VPSC_RULE,
                 assumptions=["oracle = Hildreth dual ascent with KKT self-check; no verdict (counted) when it does not converge",
                              "agreement threshold 1e-4 x problem scale and strictly higher cost than the oracle optimum"]),
 }
